@@ -47,12 +47,13 @@ def check_graph_object(g, nv, edges):
 
 def replay_state(r):
     from cspuz.graph import Graph
-    g = Graph(3)
+    nv = len(r["inc"])
+    g = Graph(nv)
     for i, j in r["edges"]:
         g.add_edge(i, j)
     got = project(g)
     exp = {"edges": r["edges"], "inc": r["inc"]}
-    probs = check_graph_object(g, 3, r["edges"])
+    probs = check_graph_object(g, nv, r["edges"])
     if got != exp:
         probs.append(f"state: expected {exp}, observed {got}")
     lg = g.line_graph()
@@ -135,7 +136,7 @@ def record_trace(tid, rng):
 def run(tier, seed):
     chk = Check(PID, tier, seed, evidence_dir="evidence_extended")
     # ---- (a) spec -> code
-    res = run_tlc("MC_GraphSM", "MC_GraphSM", workdir=chk.dir, timeout=900)
+    res = run_tlc("MC_GraphSM", "MC_GraphSM", workdir=chk.dir, env={"TIER": tier}, timeout=1800)
     chk.add_tlc(res)
     nstate = ngrid = 0
     for r in res.records:
